@@ -4,6 +4,7 @@ import (
 	"reflect"
 
 	"github.com/karagenc/socket.io-go/internal/sync"
+	"github.com/karagenc/socket.io-go/internal/vhook"
 
 	"github.com/karagenc/socket.io-go/adapter"
 	"github.com/karagenc/socket.io-go/parser"
@@ -290,12 +291,14 @@ func (s *adapterSocketStore) Remove(sid SocketID) {
 func (e *handlerStore[T]) on(handler T) {
 	e.mu.Lock()
 	e.funcs = append(e.funcs, handler)
+	vhook.Event("hs.on", "o", e, "e", "", "h", handler)
 	e.mu.Unlock()
 }
 
 func (e *handlerStore[T]) onSubEvent(handler T) {
 	e.mu.Lock()
 	e.subs = append(e.subs, handler)
+	vhook.Event("hs.onsub", "o", e, "e", "", "h", vhook.PtrID{P: handler})
 	e.mu.Unlock()
 }
 
@@ -306,18 +309,21 @@ func (e *handlerStore[T]) offSubEvent(handler T) {
 			e.subs = append(e.subs[:i], e.subs[i+1:]...)
 		}
 	}
+	vhook.Event("hs.offsub", "o", e, "e", "", "h", vhook.PtrID{P: handler})
 	e.mu.Unlock()
 }
 
 func (e *handlerStore[T]) offSubEvents() {
 	e.mu.Lock()
 	e.subs = nil
+	vhook.Event("hs.offsubs", "o", e, "e", "")
 	e.mu.Unlock()
 }
 
 func (e *handlerStore[T]) once(handler T) {
 	e.mu.Lock()
 	e.funcsOnce = append(e.funcsOnce, handler)
+	vhook.Event("hs.once", "o", e, "e", "", "h", handler)
 	e.mu.Unlock()
 }
 
@@ -328,8 +334,10 @@ func (e *handlerStore[T]) off(handler ...T) {
 	if len(handler) == 0 {
 		e.funcs = nil
 		e.funcsOnce = nil
+		vhook.Event("hs.offall", "o", e, "e", "")
 		return
 	}
+	defer func() { vhook.Event("hs.off", "o", e, "e", "", "hs", handler) }()
 
 	remove := func(slice []T, s int) []T {
 		return append(slice[:s], slice[s+1:]...)
@@ -357,6 +365,7 @@ func (e *handlerStore[T]) offAll() {
 	defer e.mu.Unlock()
 	e.funcs = nil
 	e.funcsOnce = nil
+	vhook.Event("hs.offall", "o", e, "e", "")
 }
 
 func (e *handlerStore[T]) getAll() (handlers []T) {
@@ -368,6 +377,7 @@ func (e *handlerStore[T]) getAll() (handlers []T) {
 	handlers = append(handlers, e.funcs...)
 	handlers = append(handlers, e.funcsOnce...)
 	e.funcsOnce = nil
+	vhook.Event("hs.fire", "o", e, "e", "", "nsub", len(e.subs), "res", handlers)
 	return
 }
 
@@ -394,6 +404,7 @@ func (e *eventHandlerStore) on(eventName string, handler *eventHandler) {
 	handlers := e.events[eventName]
 	handlers = append(handlers, handler)
 	e.events[eventName] = handlers
+	vhook.Event("hs.on", "o", e, "e", eventName, "h", handler.rv)
 	e.mu.Unlock()
 }
 
@@ -402,6 +413,7 @@ func (e *eventHandlerStore) once(eventName string, handler *eventHandler) {
 	handlers := e.eventsOnce[eventName]
 	handlers = append(handlers, handler)
 	e.eventsOnce[eventName] = handlers
+	vhook.Event("hs.once", "o", e, "e", eventName, "h", handler.rv)
 	e.mu.Unlock()
 }
 
@@ -412,8 +424,10 @@ func (e *eventHandlerStore) off(eventName string, handler ...reflect.Value) {
 	if handler == nil {
 		delete(e.events, eventName)
 		delete(e.eventsOnce, eventName)
+		vhook.Event("hs.offall", "o", e, "e", eventName)
 		return
 	}
+	defer func() { vhook.Event("hs.off", "o", e, "e", eventName, "hs", handler) }()
 
 	remove := func(slice []*eventHandler, s int) []*eventHandler {
 		return append(slice[:s], slice[s+1:]...)
@@ -467,6 +481,7 @@ func (e *eventHandlerStore) offAll() {
 	for k := range e.eventsOnce {
 		delete(e.eventsOnce, k)
 	}
+	vhook.Event("hs.offeverything", "o", e)
 }
 
 func (e *eventHandlerStore) getAll(eventName string) (handlers []*eventHandler) {
@@ -481,5 +496,6 @@ func (e *eventHandlerStore) getAll(eventName string) (handlers []*eventHandler) 
 	handlers = make([]*eventHandler, 0, len(h)+len(hOnce))
 	handlers = append(handlers, h...)
 	handlers = append(handlers, hOnce...)
+	vhook.Event("hs.fire", "o", e, "e", eventName, "nsub", 0, "res", handlers)
 	return
 }
